@@ -188,7 +188,10 @@ def ehep(c):
     P = c['params']; t = c['t']
     s = EscapeOfHEProducts(**P)
     x = np.linspace(-2.0 * P['D'] * t, P['D'] * t * 1.2, 400)
-    x = x[(x <= P['xmax'])]
+    # plus a fine sweep through the escape front x = D t and the other region boundaries, where clamps guard fractional powers
+    fr = P['D'] * t
+    x = np.concatenate([x, fr + np.linspace(-5e-6, 5e-6, 401), fr * (1 + np.linspace(-1e-9, 1e-9, 21)), [fr]])
+    x = np.sort(x[(x <= P['xmax'])])
     sol = s(x, t)
     out = {}
     for k in ('density', 'pressure', 'sound_speed', 'specific_internal_energy'):
@@ -336,6 +339,33 @@ def riemann_params(rng):
     return P
 
 
+def threshold_problem(rng):
+    """ideal-gas problems whose right velocity lies just on either side of one of the thresholds of the wave-pattern chain
+    (Gottlieb & Groth): u_SCN / u_NCR for pl <= pr, u_NCS / u_RCN for pl > pr.  Thresholds are computed here from the
+    textbook formulas, not from the code under test."""
+    import math
+    P = riemann_params(rng)
+    while abs(P['gl'] - P['gr']) < 0.15:
+        P['gr'] = r4(rng, 1.2, 2.2)
+    P['pl'], P['pr'] = r4(rng, 0.5, 4), r4(rng, 0.5, 4)
+    pl, rl, ul, gl, pr, rr, gr = (P[k] for k in ('pl', 'rl', 'ul', 'gl', 'pr', 'rr', 'gr'))
+    al, ar = math.sqrt(gl * pl / rl), math.sqrt(gr * pr / rr)
+    def shock(px, p, r, g):
+        return (px - p) * math.sqrt(2 / (g + 1) / r / (px + (g - 1) / (g + 1) * p))
+    def raref(px, p, r, g):
+        return 2 * math.sqrt(g * p / r) / (g - 1) * (1 - (px / p) ** ((g - 1) / 2 / g))
+    if pl <= pr:
+        th = [ul - shock(pr, pl, rl, gl), ul + raref(pl, pr, rr, gr)]
+    else:
+        th = [ul - shock(pl, pr, rr, gr), ul + raref(pr, pl, rl, gl)]
+    vac = ul + 2 * al / (gl - 1) + 2 * ar / (gr - 1)
+    k = rng.randrange(2)
+    width = abs(th[1] - th[0]) + 0.2
+    ur = th[k] + rng.choice([-1, 1]) * rng.uniform(0.01, 0.45) * width
+    P['ur'] = float('%.6g' % min(ur, vac - 0.05 * abs(vac - th[1])))
+    return P
+
+
 def cases(rng, n, kinds=None):
     out = []
     for _ in range(n):
@@ -349,6 +379,8 @@ def cases(rng, n, kinds=None):
             if cls == 'GenEOS_Solver' and rng.random() < 0.5:
                 continue
             out.append({'kind': 'riemann', 'class': cls, 'params': riemann_params(rng), 't': r4(rng, 0.05, 0.3)})
+        for _k in range(3):
+            out.append({'kind': 'riemann', 'class': 'IGEOS_Solver', 'params': threshold_problem(rng), 't': r4(rng, 0.05, 0.2), 'near_threshold': True})
         D = r4(rng, 0.3, 2)
         out.append({'kind': 'ehep', 'params': {'D': D, 'rho_0': r4(rng, 0.5, 3), 'up': r4(rng, 0.0, 0.2) * D, 'xtilde': r4(rng, 0.5, 1.5), 'xmax': 10.0, 'tmax': 10.0},
                     't': r4(rng, 0.3, 3)})
@@ -368,8 +400,11 @@ def cases(rng, n, kinds=None):
     return [c for c in out if kinds is None or c['kind'] in kinds]
 
 
-def oracle(rng, tier, reasons, kinds=None):
-    cs = cases(rng, 1 if tier == 'quick' else 8, kinds)
+def oracle(rng, tier, reasons, kinds=None, skip_geneos=False):
+    # a broken obligation (reasons given) widens the search
+    cs = cases(rng, (1 if tier == 'quick' else 8) * (6 if reasons else 1), kinds)
+    if skip_geneos:
+        cs = [c for c in cs if c.get('class') != 'GenEOS_Solver']
     res = H.run_real(SCRIPT, cs, timeout=3000)
     fails = []
     for c, r in zip(cs, res):
